@@ -186,6 +186,11 @@ func placement(s *cacheutil.MemcachedJumpHashSelector, servers, keys []string) (
 
 // checkC49 runs oracles (a)-(c). added is the server to add ("" for none); addedLast says whether the
 // construction guarantees that it sorts last in natural order.
+// c49Prev (set by the generated test): an earlier server list the second selector was given before the
+// list under test, as the periodic DNS refresh does with one long-lived selector; what was listed
+// earlier, and in which order, must not matter.
+var c49Prev []string
+
 func checkC49(servers, perm, keys []string, added string, addedLast bool) (msg string, moved int, spread int) {
 	s1, err := newSelector(servers)
 	if err != nil {
@@ -203,17 +208,22 @@ func checkC49(servers, perm, keys []string, added string, addedLast bool) (msg s
 		used[sv] = true
 	}
 	spread = len(used)
-	s2, err := newSelector(perm)
-	if err != nil {
+	s2 := &cacheutil.MemcachedJumpHashSelector{}
+	if len(c49Prev) > 0 {
+		if err := s2.SetServers(c49Prev...); err != nil {
+			return "harness: SetServers failed: " + err.Error(), 0, 0
+		}
+	}
+	if err := s2.SetServers(perm...); err != nil {
 		return "harness: SetServers failed: " + err.Error(), 0, 0
 	}
 	p2, m := placement(s2, perm, keys)
 	if m != "" {
-		return "permuted list: " + m, 0, 0
+		return fmt.Sprintf("permuted list (selector had %v before): %s", c49Prev, m), 0, 0
 	}
 	for _, k := range keys {
 		if p1[k] != p2[k] {
-			return fmt.Sprintf("key %q is placed on %s with servers listed as %v but on %s with the same servers listed as %v", k, p1[k], servers, p2[k], perm), 0, 0
+			return fmt.Sprintf("key %q is placed on %s with servers listed as %v but on %s with the same servers listed as %v (on a selector that had %v before)", k, p1[k], servers, p2[k], perm, c49Prev), 0, 0
 		}
 	}
 	if added == "" {
@@ -395,9 +405,30 @@ func TestVerifC49(t *testing.T) {
 				}
 			}
 		}
+		c49Prev = nil
+		if rapid.Bool().Draw(rt, "earlierList") {
+			// the selector was given another list before: a subset of the servers, possibly with a
+			// server that has left since, in any order
+			for _, sv := range servers {
+				if rapid.IntRange(0, 2).Draw(rt, "inEarlier") > 0 {
+					c49Prev = append(c49Prev, sv)
+				}
+			}
+			if rapid.Bool().Draw(rt, "earlierGone") {
+				c49Prev = append(c49Prev, fam.fn(rapid.IntRange(0, 250).Draw(rt, "goneK")))
+			}
+			if len(c49Prev) > 1 {
+				c49Prev = rapid.Permutation(c49Prev).Draw(rt, "earlierOrder")
+			}
+			if len(c49Prev) > 0 {
+				classes = append(classes, "selector-had-an-earlier-list")
+			}
+		}
 		msg, moved, spread := checkC49(servers, perm, keys, added, addedLast)
+		prev := c49Prev
+		c49Prev = nil
 		if msg != "" {
-			rt.Fatalf("C49 violated: %s\nservers=%v perm=%v added=%q keys=%d", msg, servers, perm, added, len(keys))
+			rt.Fatalf("C49 violated: %s\nservers=%v perm=%v earlier=%v added=%q keys=%d", msg, servers, perm, prev, added, len(keys))
 		}
 		if len(servers) == 1 {
 			classes = append(classes, "single-server")
